@@ -18,6 +18,10 @@ hand-modelled and tied by the correspondence harness hx_snaptun):
 * `SnapTunServer::handle_{incoming,outgoing}_packet_with_session` — number of authorisation checks that
   return early (3: occupied entry, new handshake, outgoing), and the early return that keeps a handshake rejected by
   the freshly created tunnel from leaving a tunnel entry (fix 9197560);
+* the public surface of `SnapTunServer`: the names of all `pub fn` of all its impl blocks (`SERVER_PUB_FNS`, compared by
+  the `decide` theorem `entry_points_pinned` with the list of entry points the model has a function for and the
+  harness drives), and that the two compatibility wrappers `handle_incoming_packet` / `handle_outgoing_packet` are the
+  `_with_session` function followed by the projection (`PLAIN_*_DELEGATES`; false makes the same theorem fail);
 * gotatun `N_SESSIONS`, `MAX_QUEUE_DEPTH` (vendored crate; used only by the executable WireGuard stand-in of the
   model driver, never by a theorem about the server).
 """
@@ -174,6 +178,67 @@ def register(api):
             raise E("server.rs: the early return for a handshake rejected by the new tunnel (before insert_entry) was not found")
         vals["VACANT_REJECTED_HANDSHAKE_NOT_INSERTED"] = True
 
+        # --- server: the public surface of `SnapTunServer` (every `pub fn` of every `impl .. SnapTunServer<..>` block
+        # in source order; a cfg-gated block prefixes its functions with the feature; a trait impl or a `pub` field is
+        # listed too).  The model (`entryPoints`) and the harness (`DRIVEN`) know this list; a new public entry point
+        # that neither models nor drives makes `entry_points_pinned` fail.
+        ms = re.search(r"pub struct SnapTunServer\s*<[^{]*\{", srv)
+        if not ms:
+            raise E("struct SnapTunServer not found")
+        sbody = srv[ms.end():srv.index("}", ms.end())]
+        pub_fns = ["field:" + f for f in re.findall(r"\bpub(?:\([^)]*\))?\s+(\w+)\s*:", sbody)]
+        impl_re = re.compile(r"((?:#\[[^\]]*\]\s*)*)\bimpl\s*(?:<[^{]*?>)?\s*(?:([\w:]+(?:<[^{]*?>)?)\s+for\s+)?SnapTunServer\s*<[^{]*?>\s*\{")
+        n_impl = 0
+        for mi in impl_re.finditer(srv):
+            n_impl += 1
+            attrs, trait = mi.group(1), mi.group(2)
+            depth, j = 1, mi.end()
+            while j < len(srv) and depth:
+                depth += {"{": 1, "}": -1}.get(srv[j], 0)
+                j += 1
+            if depth:
+                raise E("impl SnapTunServer: unbalanced braces")
+            ibody = srv[mi.end():j - 1]
+            prefix = ""
+            if attrs.strip():
+                mf = re.fullmatch(r'#\[cfg\(feature = "([\w-]+)"\)\]', " ".join(attrs.split()))
+                prefix = (mf.group(1) if mf else " ".join(attrs.split())) + ":"
+            if trait:
+                pub_fns.append(f"{prefix}impl {trait}")
+                continue
+            for mfn in re.finditer(r"\bpub(\([^)]*\))?\s+(?:(?:const|async|unsafe)\s+)*fn\s+(\w+)", ibody):
+                pub_fns.append(prefix + (f"pub{mfn.group(1)}:" if mfn.group(1) else "") + mfn.group(2))
+        if n_impl == 0:
+            raise E("no `impl .. SnapTunServer<..>` block found")
+        for need in ("handle_incoming_packet_with_session", "handle_outgoing_packet_with_session"):
+            if need not in pub_fns:
+                raise E(f"server.rs: pub fn {need} not found in impl SnapTunServer")
+        vals["SERVER_PUB_FNS"] = pub_fns
+        # the two compatibility wrappers are the `_with_session` function followed by a projection
+        imp = next(mi for mi in impl_re.finditer(srv) if not mi.group(1).strip() and not mi.group(2))
+        isrc = srv[imp.end():]
+
+        def wrapper(name, sig_re, want):
+            try:
+                b = " ".join(fn_body(isrc, r"pub\s+fn\s+" + name + r"\s*\(" + sig_re, name).split())
+            except E:
+                return False
+            return re.sub(r"\s*\.\s*", ".", b) == want
+        vals["PLAIN_INCOMING_DELEGATES"] = wrapper(
+            "handle_incoming_packet",
+            r"\s*&mut self\s*,\s*packet\s*:\s*Packet\s*,\s*from\s*:\s*SocketAddr\s*,\s*send_to_network\s*:\s*&mut VecDeque<WgKind>\s*,?\s*\)\s*->\s*TunnResult\s*\{",
+            "self.handle_incoming_packet_with_session(packet, from, send_to_network).into_result()")
+        vals["PLAIN_OUTGOING_DELEGATES"] = wrapper(
+            "handle_outgoing_packet",
+            r"\s*&mut self\s*,\s*packet\s*:\s*Packet\s*,\s*to\s*:\s*SocketAddr\s*,?\s*\)\s*->\s*Option<WgKind>\s*\{",
+            "self.handle_outgoing_packet_with_session(packet, to).and_then(HandleOutgoingPacketResult::into_packet)")
+        # the projections themselves
+        vals["INTO_RESULT_IS_PROJECTION"] = bool(re.search(
+            r"pub fn into_result\(self\) -> TunnResult \{ match self \{ HandleIncomingPacketResult::Result \{ result \} => result, "
+            r"HandleIncomingPacketResult::Forwarded \{ packet, \.\. \} => \{ TunnResult::WriteToTunnel\(packet\) \} \} \}", flat))
+        vals["INTO_PACKET_IS_PROJECTION"] = bool(re.search(
+            r"pub fn into_packet\(self\) -> Option<WgKind> \{ self\.network_packet \}", flat))
+
         # --- gotatun constants (vendored crate, version pinned by Cargo.lock)
         lock = api.read("Cargo.lock")
         mv = re.search(r'name = "ana-gotatun"\s*\nversion = "([^"]+)"', lock)
@@ -199,6 +264,17 @@ def register(api):
                  "A guard bound to `_` (dropped at once) is classified as absent. -/\n")
         body += f"def UPDATE_STEPS : List Nat := [{', '.join(str(x) for x in vals['UPDATE_STEPS'])}]\n"
         body += f"def UPDATE_UNDER_WRITE_LOCK : Bool := {'true' if vals['UPDATE_UNDER_WRITE_LOCK'] else 'false'}\n"
+        lb = lambda b: "true" if b else "false"
+        body += ("/-- every `pub fn` of every `impl .. SnapTunServer<..>` block of snap-tun/src/server.rs in source order\n"
+                 "(`<feature>:` = inside a `#[cfg(feature = ..)]` block, `impl <Trait>` = a trait impl, `field:` = a pub field) -/\n")
+        body += "def SERVER_PUB_FNS : List String := [" + ", ".join('"' + n.replace('\\', '\\\\').replace('"', '\\"') + '"' for n in pub_fns) + "]\n"
+        body += ("/-- `handle_incoming_packet` is `self.handle_incoming_packet_with_session(packet, from, send_to_network)\n"
+                 ".into_result()` and `into_result` maps `Result { result }` to `result`, `Forwarded { packet, .. }` to\n"
+                 "`WriteToTunnel(packet)` -/\n")
+        body += f"def PLAIN_INCOMING_DELEGATES : Bool := {lb(vals['PLAIN_INCOMING_DELEGATES'] and vals['INTO_RESULT_IS_PROJECTION'])}\n"
+        body += ("/-- `handle_outgoing_packet` is `self.handle_outgoing_packet_with_session(packet, to)\n"
+                 ".and_then(HandleOutgoingPacketResult::into_packet)` and `into_packet` is `self.network_packet` -/\n")
+        body += f"def PLAIN_OUTGOING_DELEGATES : Bool := {lb(vals['PLAIN_OUTGOING_DELEGATES'] and vals['INTO_PACKET_IS_PROJECTION'])}\n"
         body += f"def N_SESSIONS : Nat := {vals['N_SESSIONS']}\n"
         body += f"def MAX_QUEUE_DEPTH : Nat := {vals['MAX_QUEUE_DEPTH']}\n"
         body += "end ScionVerif.Generated.SnapTun\n"
